@@ -73,6 +73,7 @@ fn main() {
         "stalechain" => crashdrv::stalechain_main(rest),
         "uringfault" => crashdrv::uringfault_main(rest),
         "clocksat" => seqdrv::clocksat(rest),
+        "faultstory" => seqdrv::faultstory(rest),
         "layout-selftest" => layout::selftest(rest.first().map(|s| s.as_str()).unwrap_or("/dev/shm/fxv-layout")),
         "version" => {
             println!("fxv record_overhead={}", feoxdb::FeoxStore::verif_record_overhead());
